@@ -110,6 +110,7 @@ CELLS = {
     "cubic": np.diag([5.0, 5.0, 5.0]),
     "ortho": np.diag([4.0, 5.0, 6.5]),
     "triclinic": np.array([[5.0, 0.0, 0.0], [1.0, 4.5, 0.0], [0.5, 0.8, 6.0]]),
+    "left-handed": np.array([[1.0, 4.5, 0.0], [5.0, 0.0, 0.0], [0.5, 0.8, 6.0]]),  # a legal cell with negative determinant
 }
 DEFORMS = {
     "identity": np.eye(3),
@@ -119,7 +120,7 @@ DEFORMS = {
     "general": np.array([[1.03, 0.02, -0.01], [0.02, 0.97, 0.015], [-0.01, 0.015, 1.01]]),
     "upper-triangular": np.array([[1.02, 0.03, -0.01], [0.0, 0.98, 0.02], [0.0, 0.0, 1.01]]),
 }
-N_GRID = [0, 1, 2, 5, 50]
+N_GRID = [0, 1, 2, 5, 6000, 50]  # 6000: (N+1) ln(V'/V) beyond the range of exp()
 P_GRID = [0.0, 0.01, -0.01, 1.0]
 
 
